@@ -606,14 +606,32 @@ def follow_matches_in_range(uses, matches_fns):
 def emit_facts(emit):
     emit = strip_comments(emit)
     facts = {}
+    # The integer branch of emit_div / emit_mod must have one of the shapes below (whitespace
+    # removed); anything else is an unknown shape.
+    ZERO = "throw_undef_if_zero(ctx,instr);"
+    # divisor == -1 is emitted as `0 - lhs` (wraps), everything else as i64.div_s
+    NEG1 = ("letlhs=ctx.wasm_symbols.i64_tmp_a;letrhs=ctx.wasm_symbols.i64_tmp_b;"
+            "instr.local_set(rhs);instr.local_set(lhs);instr.local_get(rhs);instr.i64_const(-1);instr.binop(BinaryOp::I64Eq);"
+            "instr.if_else(I64,|then|{then.i64_const(0);then.local_get(lhs);then.binop(BinaryOp::I64Sub);},"
+            "|else_|{else_.local_get(lhs);else_.local_get(rhs);else_.binop(BinaryOp::I64DivS);},);")
+    PLAIN = "instr.binop(BinaryOp::%s);"
     for fn_name, op in (("emit_div", "I64DivS"), ("emit_mod", "I64RemS")):
-        body = fn_body(emit, fn_name)
-        sites = [m.start() for m in re.finditer(r"BinaryOp::" + op + r"\b", body)]
-        if not sites: raise TranslateError(f"{fn_name}: BinaryOp::{op} not found")
-        zero = all(re.search(r"throw_undef_if_zero\(ctx,\s*instr\);\s*instr\.binop\(\s*$", body[:p]) for p in sites)
-        # a guard against MIN / -1 would compare the divisor with -1 (or the dividend with i64::MIN)
-        minus_one = bool(re.search(r"i64_const\(\s*-1\s*\)|i64::MIN|throw_undef_if_overflow|I64Eq\b", body))
-        facts[op] = (zero, minus_one)
+        body = re.sub(r"\s+", "", fn_body(emit, fn_name))
+        n_sites = len(re.findall(r"BinaryOp::" + op + r"\b", body))
+        if n_sites != 1: raise TranslateError(f"{fn_name}: expected exactly one BinaryOp::{op}, found {n_sites}")
+        shapes = [(ZERO + NEG1, True, True), (NEG1, False, True), (ZERO + PLAIN % op, True, False), (PLAIN % op, False, False)]
+        for text, zero, minus_one in shapes:
+            if op != "I64DivS" and minus_one: continue
+            i = body.find(text)
+            # the shape must end the integer branch: followed only by closing braces
+            if i >= 0 and re.fullmatch(r"\}*", body[i + len(text):]) and (zero or ZERO not in body):
+                facts[op] = (zero, minus_one); break
+        else:
+            raise TranslateError(f"{fn_name}: the code around BinaryOp::{op} has an unknown shape (expected [throw_undef_if_zero] then "
+                                 f"either the instruction or the `rhs == -1 => 0 - lhs` selection)")
+        # the tmp locals used by the -1 selection must not be the ones throw_undef_if_zero leaves live
+        if facts[op][1] and "i64_tmp_a" not in fn_body(emit, "throw_undef_if_zero"):
+            raise TranslateError("throw_undef_if_zero no longer uses i64_tmp_a (the -1 selection re-reads both operands from tmp locals)")
     others = [m for m in re.finditer(r"BinaryOp::(I64DivS|I64RemS|I64DivU|I64RemU)\b", emit)]
     inside = len(re.findall(r"BinaryOp::(I64DivS|I64RemS)\b", fn_body(emit, "emit_div") + fn_body(emit, "emit_mod")))
     if len(others) != inside:
@@ -630,10 +648,10 @@ def emit_facts(emit):
     ef = fn_body(emit, "emit_for")
     facts["pct_trunc_trapping"] = "UnaryOp::I64TruncSF64" in ef
     facts["pct_trunc_saturating"] = "I64TruncSSatF64" in ef
-    if facts["pct_trunc_trapping"]:
-        seq = re.sub(r"\s+", "", ef)
-        if "instr.f64_const(100.0);instr.binop(BinaryOp::F64Div);instr.unop(UnaryOp::F64Ceil);instr.unop(UnaryOp::I64TruncSF64);" not in seq:
-            raise TranslateError("emit_for: the percentage computation is no longer `/ 100.0; ceil; i64.trunc_f64_s`")
+    seq = re.sub(r"\s+", "", ef)
+    tail = "instr.f64_const(100.0);instr.binop(BinaryOp::F64Div);instr.unop(UnaryOp::F64Ceil);instr.unop(UnaryOp::%s);"
+    if (tail % "I64TruncSF64" in seq) == (tail % "I64TruncSSatF64" in seq) or facts["pct_trunc_trapping"] == facts["pct_trunc_saturating"]:
+        raise TranslateError("emit_for: the percentage computation is neither `/ 100.0; ceil; i64.trunc_f64_s` nor `/ 100.0; ceil; i64.trunc_sat_f64_s`")
     facts["trapping_truncs"] = len(truncs)
     facts["trunc_outside_emit_for"] = len(truncs) - ef.count("UnaryOp::I64TruncSF64")
     # emitter-controlled host arguments
@@ -715,7 +733,7 @@ def main():
             l = l.strip()
             if not l or l.startswith("#"): continue
             d = json.loads(l)
-            if d.get("property") == "C05" and d.get("kind") in ("known", "fixed") and d.get("host_arg"):
+            if d.get("property") == "C05" and d.get("kind") == "known" and d.get("host_arg"):
                 for fa in d["host_arg"]:
                     known.append((fa[0], fa[1], d.get("fingerprint", "")))
 
